@@ -136,6 +136,11 @@ func (m *lifecycleManager) updateCapabilities() {
 		}
 	}
 
+	// The capability map is replaced, never modified in place; the swap and the read of the previous map
+	// are done under the lock because several sessions may initialize at the same time.
+	m.mu.Lock()
+	defer m.mu.Unlock()
+
 	// Preserve existing experimental features
 	if exp, ok := m.capabilities["experimental"]; ok {
 		capMap["experimental"] = exp
@@ -208,13 +213,16 @@ func (m *lifecycleManager) saveSessionState(session Session, protocolVersion str
 
 // buildInitializeResponse creates the initialization response
 func (m *lifecycleManager) buildInitializeResponse(protocolVersion string) InitializeResult {
+	m.mu.RLock()
+	capabilities := m.capabilities
+	m.mu.RUnlock()
 	return InitializeResult{
 		ProtocolVersion: protocolVersion,
 		ServerInfo: Implementation{
 			Name:    m.serverInfo.Name,
 			Version: m.serverInfo.Version,
 		},
-		Capabilities: convertToServerCapabilities(m.capabilities),
+		Capabilities: convertToServerCapabilities(capabilities),
 		Instructions: "MCP server is ready",
 	}
 }
